@@ -104,10 +104,12 @@ def compare_dense(out, mats, X, G, n, where, tags):
     if not (asym <= tol):
         out.violate("not_symmetric", f"{where}: asymmetry {asym:.3e}", **tags)
         return
-    try:
-        np.linalg.cholesky((Bc + Bc.T) / 2)
-    except np.linalg.LinAlgError:
-        out.violate("not_positive_definite", f"{where}: Cholesky of the solver's matrix failed (cond of reference {kappa:.2e})", **tags)
+    # positive definite up to the reconstruction accuracy: the smallest eigenvalue of the dense reference is
+    # ||B||/cond; the solver's matrix may differ from it by tol*||B||, so only a deficit beyond that is a finding
+    lam_min = float(np.linalg.eigvalsh((Bc + Bc.T) / 2)[0])
+    out.count("spd_checked")
+    if not (lam_min > -tol * nb) or (tol * kappa < 0.1 and not lam_min > 0):
+        out.violate("not_positive_definite", f"{where}: smallest eigenvalue of the solver's matrix {lam_min:.3e} (||B||={nb:.3e}, cond of reference {kappa:.2e}, tol {tol:.2e})", **tags)
         return
     sec = float(np.linalg.norm(Bc @ S[-1] - Y[-1])) / max(float(np.linalg.norm(Y[-1])), 1e-300)
     out.maxi("max_secant_over_kappa_eps", sec / (kappa_all * EPS))
